@@ -119,8 +119,14 @@ impl<'a> MessageParser<'a> {
         let field_content = self.extract_field(&full_tag, false)?;
 
         // Use parse_with_variant for enum fields
-        let parsed = T::parse_with_variant(&field_content, Some(&variant), Some(base_tag))
-            .map_err(|e| {
+        // A tag without option letter is passed as `None` (the no-option variant), not as `Some("")`
+        let variant_opt = if variant.is_empty() {
+            None
+        } else {
+            Some(variant.as_str())
+        };
+        let parsed =
+            T::parse_with_variant(&field_content, variant_opt, Some(base_tag)).map_err(|e| {
                 ParseError::InvalidFieldFormat(Box::new(InvalidFieldFormatError {
                     field_tag: full_tag.clone(),
                     component_name: "field".to_string(),
@@ -170,7 +176,12 @@ impl<'a> MessageParser<'a> {
             Some(variant) => {
                 let full_tag = format!("{}{}", base_tag, variant);
                 if let Ok(content) = self.extract_field(&full_tag, true) {
-                    let parsed = T::parse_with_variant(&content, Some(&variant), Some(base_tag))
+                    let variant_opt = if variant.is_empty() {
+                        None
+                    } else {
+                        Some(variant.as_str())
+                    };
+                    let parsed = T::parse_with_variant(&content, variant_opt, Some(base_tag))
                         .map_err(|e| {
                             ParseError::InvalidFieldFormat(Box::new(InvalidFieldFormatError {
                                 field_tag: full_tag.clone(),
